@@ -28,3 +28,9 @@ mod c21_bulk;
 mod mmapper;
 #[cfg(kani)]
 mod c22_search;
+#[cfg(kani)]
+mod c40_revgroup;
+#[cfg(kani)]
+mod c31_sft;
+#[cfg(kani)]
+mod c27_rawfreelist;
